@@ -225,7 +225,7 @@ ACC_TABLE = {
 
 
 def check_accumulators_threaded(ctx, fns, callees=('get_derived_edges_for_node', 'get_derived_edges_for_edge'),
-                                rule='A5acc'):
+                                rule='A5acc', subsumed=()):
     """Whether a node is derived *only* by the node being removed depends on what has been removed already.  Where the
     results of get_derived_edges_for_* are accumulated in a loop (`R_e |= derived_edges`, `R_n |= derived_nodes`),
     the call hands the accumulators back in as removed_edges= / removed_nodes= - otherwise a node jointly derived
@@ -233,6 +233,11 @@ def check_accumulators_threaded(ctx, fns, callees=('get_derived_edges_for_node',
     n = 0
     for fn in fns:
         if isinstance(fn.node, ast.Lambda):
+            continue
+        if fn.key in subsumed:
+            # what this loop removes is a subset of what another, established clause removes anyway (the caller says
+            # which): threading the accumulators is not needed for the property at this site
+            ctx.note(f'A5acc not required in {fn.qualname}: {subsumed[fn.key]}')
             continue
         for loop in [x for x in ast.walk(fn.node) if isinstance(x, (ast.For, ast.While))]:
             body_stmts = [s for st in loop.body for s in ast.walk(st) if isinstance(s, ast.stmt)]
